@@ -29,6 +29,16 @@ pub trait ItemExt: Sized {
         None
     }
     fn reset_init() {}
+    /// What the skipped fields of a freshly DECODED object hold, against what they must hold: one text per
+    /// field that differs.  Must hold: `Default::default()`; for the two fields the generated init hook
+    /// rewrites (`init_calls`, `init_sum`) exactly what ONE call of the hook on this object leaves there.
+    fn skipped_check(&self) -> Vec<String> {
+        Vec::new()
+    }
+    /// `BorshSchemaContainer::for_type::<Self>()` built and validated (only where BorshSchema is derived too)
+    fn schema_ok() -> Option<String> {
+        None
+    }
     /// the discriminant as rustc computes it (enums only, where it can be read)
     fn discr(&self) -> Option<i128> {
         None
@@ -57,9 +67,37 @@ fn res_val<T: Model>(r: borsh::io::Result<T>, rest: &[u8]) -> String {
     }
 }
 
+/// `init=<calls of the hook since the reset>` TAB `skipped=ok | - | BAD: ...` for one decode result
+fn observe<T: Model + ItemExt>(r: &borsh::io::Result<T>) -> String {
+    let n = match T::init_calls() {
+        Some(n) => n.to_string(),
+        None => "-".to_string(),
+    };
+    let sk = match r {
+        Ok(x) => {
+            let bad = x.skipped_check();
+            if bad.is_empty() {
+                "ok".to_string()
+            } else {
+                format!("BAD: {}", bad.join("; "))
+            }
+        }
+        Err(_) => "-".to_string(),
+    };
+    format!("init={}\tskipped={}", n, sk)
+}
+
+fn ok_class<T>(r: &borsh::io::Result<T>) -> &'static str {
+    if r.is_ok() {
+        "ok"
+    } else {
+        "err"
+    }
+}
+
 fn run_item<T: Model + ItemExt + BorshSerialize + BorshDeserialize>(op: &str, args: &[&str]) -> String {
     match (op, args) {
-        // decode, and report how often the item's init hook ran
+        // decode, and report how often the item's init hook ran and what the skipped fields hold
         ("decinit", [h]) => {
             let b = match unhex(h) {
                 Ok(b) => b,
@@ -68,13 +106,10 @@ fn run_item<T: Model + ItemExt + BorshSerialize + BorshDeserialize>(op: &str, ar
             T::reset_init();
             let mut s: &[u8] = &b;
             let r = T::deserialize(&mut s);
-            let n = match T::init_calls() {
-                Some(n) => n.to_string(),
-                None => "-".to_string(),
-            };
-            format!("{}\tinit={}", res_val(r, s), n)
+            let o = observe(&r);
+            format!("{}\t{}", res_val(r, s), o)
         }
-        // EnumExt::deserialize_variant(rest, tag) against deserialize(tag :: rest)
+        // EnumExt::deserialize_variant(rest, tag) against deserialize(tag :: rest): value, rest, hook calls, skipped fields
         ("devar", [h]) => {
             let b = match unhex(h) {
                 Ok(b) => b,
@@ -84,14 +119,107 @@ fn run_item<T: Model + ItemExt + BorshSerialize + BorshDeserialize>(op: &str, ar
                 return "skip empty".into();
             }
             let mut s1: &[u8] = &b[1..];
+            T::reset_init();
             let r1 = match T::de_variant(b[0], &mut s1) {
-                Some(r) => res_val(r, s1),
+                Some(r) => {
+                    let o = observe(&r);
+                    format!("{}\t{}", res_val(r, s1), o)
+                }
                 None => return "skip not-an-enum".into(),
             };
             let mut s2: &[u8] = &b;
-            let r2 = res_val(T::deserialize(&mut s2), s2);
-            format!("{}\t{}", r1, r2)
+            T::reset_init();
+            let r = T::deserialize(&mut s2);
+            let o = observe(&r);
+            format!("{}\t{}\t{}", r1, res_val(r, s2), o)
         }
+        // every public decoding entry point: same verdict, hook once per decoded object, skipped fields as required
+        ("entries", [h]) => {
+            let b = match unhex(h) {
+                Ok(b) => b,
+                Err(e) => return format!("harness-error {}", e),
+            };
+            T::reset_init();
+            let mut s0: &[u8] = &b;
+            let r0 = T::deserialize(&mut s0);
+            let whole = s0.is_empty();
+            let o0 = observe(&r0);
+            let v0 = r0.as_ref().ok().map(|x| show(&x.to_val()));
+            let has_hook = T::init_calls().is_some();
+            let mut bad: Vec<String> = Vec::new();
+            for mode in ["try_from_slice", "from_slice", "deserialize_reader", "try_from_reader", "from_reader"] {
+                T::reset_init();
+                let mut rd = ops::CountingReader { data: &b, pos: 0 };
+                let r = match mode {
+                    "try_from_slice" => T::try_from_slice(&b),
+                    "from_slice" => borsh::from_slice::<T>(&b),
+                    "deserialize_reader" => T::deserialize_reader(&mut rd),
+                    "try_from_reader" => T::try_from_reader(&mut rd),
+                    _ => borsh::from_reader::<_, T>(&mut rd),
+                };
+                let o = observe(&r);
+                let n = T::init_calls().unwrap_or(0);
+                if mode == "deserialize_reader" || whole || v0.is_none() {
+                    // same outcome as `deserialize` on the same bytes
+                    let v = r.as_ref().ok().map(|x| show(&x.to_val()));
+                    if v != v0 || o != o0 {
+                        bad.push(format!("{}: {} {:?} {} against deserialize: {} {:?} {}", mode, ok_class(&r), v, o, ok_class(&r0), v0, o0));
+                    }
+                } else {
+                    // a value was decoded and bytes are left over: the whole-input entry points refuse, after ONE hook call
+                    if r.is_ok() || (has_hook && n != 1) {
+                        bad.push(format!("{}: {} init={} on input with left-over bytes (deserialize: {})", mode, ok_class(&r), n, o0));
+                    }
+                }
+            }
+            if bad.is_empty() {
+                "ok".to_string()
+            } else {
+                bad.join(" | ")
+            }
+        }
+        // round trip of a value whose skipped fields hold NON-default contents: the decoded object has Default there
+        // (the hook fields: what one hook call writes), the hook ran once
+        ("rt", [v, tail]) => {
+            let v = match parse_val(v) {
+                Ok(v) => v,
+                Err(e) => return format!("harness-error {}", e),
+            };
+            let tail = match unhex(tail) {
+                Ok(t) => t,
+                Err(e) => return format!("harness-error {}", e),
+            };
+            let x = match T::from_val(&v) {
+                Some(x) => x,
+                None => return "skip from_val".into(),
+            };
+            let mut b = match borsh::to_vec(&x) {
+                Ok(b) => b,
+                Err(_) => return "skip encerr".into(),
+            };
+            b.extend_from_slice(&tail);
+            let mut s: &[u8] = &b;
+            T::reset_init();
+            let r = T::deserialize(&mut s);
+            let o = observe(&r);
+            match r {
+                Ok(y) => {
+                    let want = if T::init_calls().is_some() { "init=1\tskipped=ok" } else { "init=-\tskipped=ok" };
+                    if y.to_val() != x.to_val() || s != &tail[..] {
+                        format!("diff {} {}", show(&y.to_val()), hex(s))
+                    } else if o != want {
+                        format!("diff-hook {}", o.replace('\t', " "))
+                    } else {
+                        "ok same".to_string()
+                    }
+                }
+                Err(e) => format!("dec{}", err_s(&e)),
+            }
+        }
+        ("schema", _) => match T::schema_ok() {
+            Some(s) => s,
+            None => "skip no-schema-derive".into(),
+        },
         // first byte of the encoding against the discriminant rustc assigned
         ("tagdiscr", [v]) => {
             let v = match parse_val(v) {
